@@ -9,7 +9,8 @@ had symbols 0..4.  Nothing but safe Python is involved.
 
 Run with the package directory on the path (pyharness/run.sh exports LMV_PYPKG):
     LMV_PYPKG=.build/py-pkg-release python3 pyharness/stale_view.py
-Prints `same` (the allocator did not move / re-use the block) or `differs <cells> first=<c>,<r>,<value>`.
+Prints `same` (the allocator did not move / re-use the block), `differs <cells> first=<c>,<r>,<value>` (the defect as
+found), or `refused …` (the code as repaired by /repo 34d1e9e: calculate() raises BufferError while the view is alive).
 """
 import os, sys
 
@@ -24,7 +25,10 @@ def probe(L=8000, M=4000):
     before = memoryview(seq)                       # exported BEFORE the object is reused
     snapshot = before.tolist()
     wide = lightmotif.ScoringMatrix({a: [0.0] * M for a in "ACTG"})
-    wide.calculate(seq)                            # configure_wrap(M - 1): the storage grows and moves
+    try:
+        wide.calculate(seq)                        # configure_wrap(M - 1): the storage grows and moves
+    except BufferError:                            # repaired (/repo 34d1e9e): refused while `before` is alive
+        return None, memoryview(seq).tolist() == snapshot and before.tolist() == snapshot
     junk = [bytearray(b"\xAA" * (rows * 32)) for _ in range(64)]
     after = before.tolist()                        # read through the stale pointer
     bad = [(c, r, after[c][r]) for c in range(32) for r in range(rows) if after[c][r] != snapshot[c][r]]
@@ -37,7 +41,9 @@ if __name__ == "__main__":
     L = int(sys.argv[1]) if len(sys.argv) > 1 else 8000
     M = int(sys.argv[2]) if len(sys.argv) > 2 else 4000
     bad, fresh_ok = probe(L, M)
-    if bad:
+    if bad is None:
+        print(f"refused (BufferError while the view is exported) view_intact={fresh_ok}")
+    elif bad:
         c, r, v = bad[0]
         print(f"differs {len(bad)} first={c},{r},{v} fresh_view_ok={fresh_ok}")
     else:
